@@ -128,6 +128,17 @@ CLAIMS = {
         note="numpy array primitives of the filter replaced by list versions; chord lengths of "
              "curved shapes, the chord-error bound and non-constant-speed shapes are NOT decided",
         ref="§4 C12"),
+    "C14": dict(
+        text="Writer bookkeeping and FileWriter logic: enumerated histories (add/remove/duplicate add/emit/"
+             "flush/teardown over custom writers and FileWriters on text and binary stream stubs, "
+             "length <= 3/4) with symbolic comment text; z3 shows every writer received exactly the "
+             "lines emitted while registered, once, in order, same content, right type per stream, "
+             "flush forwarded, teardown disconnects everything without closing caller-supplied "
+             "streams. Path-based files only as two concrete cells.",
+        note="io objects are pure-Python stubs: real files, buffering and the file system are outside "
+             "the technique (only two concrete cells touch a real file); UTF-8 encoding stubbed as "
+             "injective, so 'same bytes' is decided as 'same text'",
+        ref="§4 C14"),
     "C07": dict(
         text="Inductive step of I7: after any of 96 call shapes from an arbitrary consistent state "
              "(symbolic feed, power, temperatures, E parameter, tool number) every state property "
@@ -145,8 +156,6 @@ CLAIMS = {
 }
 
 NOT_APPLICABLE = {
-    "C14": "the substance (bytes reaching files/streams, flush/teardown, io objects, the file system) lives "
-           "in C-implemented io; with stubbed streams only the writer-list bookkeeping would remain",
     "C16": "property is about real thread schedules (threading.Event, reader thread, polling); no "
            "symbolic engine here executes multi-threaded Python",
     "C18": "regex/strip/lower/float() parsing of symbolic strings does not confirm any path within "
